@@ -19,7 +19,7 @@ Proof.
 Qed.
 
 Lemma known_cases s m : known s m = true <->
-  m < s_lo s \/ (exists r, In r (s_rng s) /\ fst r <= m < snd r) \/ In m (s_pts s).
+  m < s_lo s \/ (exists r, In r (s_rng s) /\ g_from r <= m < g_until r) \/ In m (s_pts s).
 Proof.
   unfold known. rewrite !orb_true_iff, Z.ltb_lt, existsb_exists, memz_true.
   split.
@@ -38,12 +38,12 @@ Proof.
   intros Hx Hm Hbelow. destruct (Z.eq_dec m x) as [->|Hne]; [now left|]. right.
   assert (Hp : known s (m - 1) = true) by (apply Hbelow; lia).
   apply known_cases in Hp. unfold cands.
-  assert (Hnk : ~ (m < s_lo s \/ (exists r, In r (s_rng s) /\ fst r <= m < snd r) \/ In m (s_pts s))).
+  assert (Hnk : ~ (m < s_lo s \/ (exists r, In r (s_rng s) /\ g_from r <= m < g_until r) \/ In m (s_pts s))).
   { rewrite <- known_cases. congruence. }
   destruct Hp as [A|[(r & A & B)|A]].
   - left. assert (~ m < s_lo s) by tauto. lia.
   - right. apply in_or_app. left. apply in_map_iff. exists r. split; [|exact A].
-    assert (~ (fst r <= m < snd r)). { intros C. apply Hnk. right; left. exists r. tauto. } lia.
+    assert (~ (g_from r <= m < g_until r)). { intros C. apply Hnk. right; left. exists r. tauto. } lia.
   - right. apply in_or_app. right. apply in_map_iff. exists (m - 1). split; [lia|exact A].
 Qed.
 
@@ -99,4 +99,66 @@ Proof.
   { apply filter_In. split; [apply least_unknown_cand; [lia|exact H2|exact H3]|].
     rewrite H2. apply andb_true_iff. split; [apply Z.leb_le; lia|reflexivity]. }
   rewrite E in Hc. specialize (B _ Hc). lia.
+Qed.
+
+(* ---------------------------------------------------------------------------------------- *)
+(* RECORDED is part of DECLARED, for every summary *)
+Lemma g_cut_le r : g_cut r <= g_until r.
+Proof. unfold g_cut. destruct (g_from r <=? g_ackbase r); lia. Qed.
+
+Lemma in_rng_rec m r : in_rng m (rec_rng r) = true -> in_rng m r = true.
+Proof.
+  unfold in_rng. cbn [rec_rng g_from g_until]. rewrite !andb_true_iff, !Z.leb_le, !Z.ltb_lt.
+  pose proof (g_cut_le r). lia.
+Qed.
+
+Lemma recorded_unfold s m :
+  recorded s m = (m <? s_lo s) || existsb (fun r => (g_from r <=? m) && (m <? g_cut r)) (s_rng s) || memz m (s_pts s).
+Proof.
+  unfold recorded, known, rec_view. cbn [s_lo s_rng s_pts]. f_equal. f_equal.
+  induction (s_rng s) as [|r l IH]; [reflexivity|]. cbn [map existsb]. now rewrite IH.
+Qed.
+
+Lemma recorded_sub_known s m : recorded s m = true -> known s m = true.
+Proof.
+  unfold recorded, known, rec_view. cbn [s_lo s_rng s_pts]. rewrite !orb_true_iff.
+  intros [[A|A]|A]; [now left; left| |now right]. left; right.
+  apply existsb_exists in A as (r' & Hin & Hr). apply in_map_iff in Hin as (r & <- & Hin).
+  apply existsb_exists. exists r. split; [exact Hin|now apply in_rng_rec].
+Qed.
+
+(* a GAP range that started at or below the ack base of its time, or ended within 256 numbers of it,
+   is recorded whole *)
+Lemma g_cut_whole r : g_from r <= g_ackbase r \/ g_until r <= g_ackbase r + 256 -> g_cut r = g_until r.
+Proof. unfold g_cut. destruct (Z.leb_spec (g_from r) (g_ackbase r)); lia. Qed.
+
+(* there is always a number the summary does not know: lowest_unknown never answers None *)
+Definition ubound (s : wspec) : Z := fold_right Z.max (s_lo s) (map g_until (s_rng s) ++ map (fun p => p + 1) (s_pts s)).
+Lemma fold_max_ge l : forall a x, In x (a :: l) -> x <= fold_right Z.max a l.
+Proof.
+  induction l as [|y l IH]; intros a x H; cbn [fold_right].
+  - destruct H as [->|[]]. lia.
+  - destruct H as [->|[->|H]].
+    + specialize (IH x x (or_introl eq_refl)). lia.
+    + lia.
+    + specialize (IH a x (or_intror H)). lia.
+Qed.
+Lemma known_below_ubound s m : known s m = true -> m < ubound s.
+Proof.
+  intros H. apply known_cases in H. unfold ubound.
+  set (l := map g_until (s_rng s) ++ map (fun p => p + 1) (s_pts s)).
+  destruct H as [A|[(r & A & B)|A]].
+  - pose proof (fold_max_ge l (s_lo s) (s_lo s) (or_introl eq_refl)). lia.
+  - assert (Hin : In (g_until r) (s_lo s :: l)). { right. apply in_or_app. left. now apply in_map. }
+    pose proof (fold_max_ge l _ _ Hin). lia.
+  - assert (Hin : In (m + 1) (s_lo s :: l)). { right. apply in_or_app. right. apply in_map_iff. now exists m. }
+    pose proof (fold_max_ge l _ _ Hin). lia.
+Qed.
+Lemma lowest_unknown_some s x : exists lu, lowest_unknown s x = Some lu.
+Proof.
+  set (m := Z.max x (ubound s)).
+  assert (Hm : known s m = false).
+  { destruct (known s m) eqn:E; [|reflexivity]. apply known_below_ubound in E. lia. }
+  destruct (exists_least_unknown s x _ m eq_refl ltac:(lia) Hm) as (m0 & A & B & C).
+  exists m0. apply lowest_unknown_char; [lia|exact B|exact C].
 Qed.
